@@ -143,8 +143,15 @@ def run(prog, rep):
                                 continue   # failure exit
                             # a normal exit must be the Err edge of the param() result
                             gs = [g for g in switch_edges(body, tr, x) if g.dst == s]
-                            good = any(("Parameters::param" in canon(g.cond)) and (g.variant in ("Err",) or (g.variant is None and g.value is None)) for g in gs)
-                            if not good:
+                            def _is_param(e):
+                                e = strip(e)
+                                return e[0] == "call" and re.search(r"Parameters::param$", e[1] or "") is not None
+                            good = any(_is_param(g.cond) and (g.variant in ("Err",) or (g.variant is None and g.value is None)) for g in gs)
+                            if not good and any("Parameters::param" in canon(g.cond) for g in gs):
+                                ok = False
+                                msg = ("the loop ends when `%s` fails, not when param() itself fails: a parameter of the wrong type ends the loop as if the "
+                                       "arguments were exhausted, and it and all later parameters are silently dropped" % canon(gs[0].cond)[:100])
+                            elif not good:
                                 ok = False
                                 msg = "the parameter loop can be left (towards an Ok result) without param() having failed: remaining parameters are neither consumed nor type-checked"
                 if not cycle_avoiding(body, h, bl, {pb}) is False:
